@@ -43,6 +43,6 @@ fn main() {
         "time is virtual; every frame round trip costs 5 us".into(),
     ];
 
-    check.run_prop("simnet-init", 16, tier.pick(150, 4_000), sc::c09_case, run);
+    check.run_prop("simnet-init", 16, tier.pick(300, 40_000), sc::c09_case, run);
     check.finish();
 }
